@@ -2,11 +2,11 @@
 # Sensitivity self-test: every seeded breaking change under /verif/seeded is applied to /repo in turn
 # (git apply; never committed), the quick check of the property it breaks must exit 1 with a VIOLATION
 # line and its replay must reproduce; the tree is restored (git checkout -- .) after each one.
-# usage: tools/check_seeds.sh [name-prefix]      result table in evidence/sensitivity.json
+# usage: tools/check_seeds.sh [name-prefix]      result table in sensitivity.json
 set -u
 cd /verif || exit 2
 if [ -n "$(git -C /repo status --porcelain --untracked-files=no)" ]; then echo "HARNESS-ERROR: /repo has uncommitted changes"; exit 2; fi
-OUT=/verif/evidence/sensitivity.json
+OUT=/verif/sensitivity.json
 echo "[" > $OUT.tmp; first=1; missed=0
 for d in seeded/${1:-}*/; do
   name=$(basename $d)
